@@ -45,6 +45,10 @@ def groups(sc, tier):
     barns = [g for g in C05.value_groups(sc, tier, "C04.safety_of_C05", no_safety=False) if "Kissel" not in g.name and "Photo_" not in g.name]
     gs += barns
     cp = [g for g in C06.groups(sc, tier) if ".formula" in g.name or ".nist" in g.name]
+    if tier != "thorough":
+        # quick tier: the three refractive-index entry points and one representative of the macro-generated _CP family
+        # (all 21 share the two macro bodies CS_CP_BEGIN / CS_CP_END; C06 itself runs every one of them)
+        cp = [g for g in cp if "Refractive" in g.name or "CS_Total_CP" in g.name or "DCSP_Rayl_CP" in g.name]
     for g in cp:
         g.name = "C04.via_" + g.name
     gs += cp
